@@ -34,18 +34,40 @@ type param struct {
 
 var selName = []string{"minindex", "minnumber", "maxvalueage", "minpriority"}
 
-// pool builds coinset.SimpleCoin values backed by real transactions: coin id i spends outpoint
-// (zero hash, i) and is the output with index i%3 of a transaction with (i%3)+1+(i/3)%3 outputs
-// (so it is the first, a middle or the last output); the other outputs carry other, non-zero
-// values.  The outpoint each coin stands for is recorded here, computed from the wire
-// transaction and not through the SimpleCoin accessors under test.
+// pool builds coinset.SimpleCoin values backed by real transactions.  Coin ids are grouped in
+// threes (group g = id/3, slot = id%3).  In groups with g%4 != 3 the coins are different outputs of
+// ONE transaction (same previous-transaction hash), at output indices that ascend with the id
+// (g%3 == 0), descend (g%3 == 2) or are mixed (g%3 == 1), so lists, selections and histories hold
+// coins sharing a hash in both index orders; in groups with g%4 == 3 every coin has its own
+// transaction and is its first, a middle or its last output.  Other outputs carry other, non-zero
+// values.  The outpoint each coin stands for is recorded here, computed from the wire transaction
+// and not through the SimpleCoin accessors under test.
+//
+// SimpleCoin is a plain struct with exported fields (Tx, TxIndex, TxNumConfs) that a wallet
+// updates as blocks arrive: the pool keeps ONE object per coin id and re-points its exported
+// fields for every new case (fresh objects only on every 7th call), so almost every use of a
+// coin follows an earlier use of the same object with other values and confirmations.  After each
+// update the accessors are compared with the values just stored (bad).
+type txKey struct {
+	g, n, slot int
+	v          [3]int64
+}
+
+type txInfo struct {
+	tx   *bchutil.Tx
+	hash chainhash.Hash
+}
+
 type pool struct {
-	m  map[[3]int64]*coinset.SimpleCoin
-	op map[*coinset.SimpleCoin]wire.OutPoint
+	txs   map[txKey]txInfo
+	objs  []*coinset.SimpleCoin
+	op    map[*coinset.SimpleCoin]wire.OutPoint
+	calls int
+	bad   string // first accessor disagreement since it was last cleared
 }
 
 func newPool() *pool {
-	return &pool{m: map[[3]int64]*coinset.SimpleCoin{}, op: map[*coinset.SimpleCoin]wire.OutPoint{}}
+	return &pool{txs: map[txKey]txInfo{}, op: map[*coinset.SimpleCoin]wire.OutPoint{}}
 }
 
 // outpoint: the (hash, index) a coin of this pool must be spent by
@@ -58,32 +80,100 @@ func (p *pool) outpoint(c coinset.Coin) (wire.OutPoint, bool) {
 	return o, ok
 }
 
-func (p *pool) coin(id int, t tcoin) *coinset.SimpleCoin {
-	k := [3]int64{int64(id), t.V, t.C}
-	if c, ok := p.m[k]; ok {
-		return c
+var slotIndex = [3][3]uint32{{0, 1, 2}, {1, 0, 2}, {2, 1, 0}}
+
+// place: the transaction and output index of coin id within desc
+func (p *pool) place(id int, desc []tcoin) (txInfo, uint32) {
+	g, slot := id/3, id%3
+	var k txKey
+	var idx uint32
+	nout := 0
+	if g%4 == 3 { // a transaction of its own
+		k = txKey{g: g, n: -1, slot: slot}
+		k.v[0] = desc[id].V
+		idx = uint32(slot)
+		nout = slot + 1 + g%3
+	} else { // one transaction for the whole group
+		k = txKey{g: g}
+		for s := 0; s < 3 && 3*g+s < len(desc); s++ {
+			k.v[s] = desc[3*g+s].V
+			k.n++
+		}
+		idx = slotIndex[g%3][slot]
+		nout = 3 + g%2
+	}
+	if ti, ok := p.txs[k]; ok {
+		return ti, idx
 	}
 	tx := wire.NewMsgTx(1)
 	tx.AddTxIn(wire.NewTxIn(wire.NewOutPoint(&chainhash.Hash{}, uint32(id)), nil))
-	for j := 0; j <= id%3+(id/3)%3; j++ {
+	for j := 0; j < nout; j++ {
 		v := int64(1000003 + 17*j)
-		if j == id%3 {
-			v = t.V
+		if g%4 == 3 {
+			if j == slot {
+				v = desc[id].V
+			}
+		} else {
+			for s := 0; s < k.n; s++ {
+				if slotIndex[g%3][s] == uint32(j) {
+					v = k.v[s]
+				}
+			}
 		}
 		tx.AddTxOut(wire.NewTxOut(v, []byte{0x51}, wire.TokenData{}))
 	}
-	c := &coinset.SimpleCoin{Tx: bchutil.NewTx(tx), TxIndex: uint32(id % 3), TxNumConfs: t.C}
-	p.m[k] = c
-	p.op[c] = wire.OutPoint{Hash: tx.TxHash(), Index: uint32(id % 3)}
-	return c
+	if len(p.txs) > 300000 {
+		p.txs = map[txKey]txInfo{}
+	}
+	ti := txInfo{bchutil.NewTx(tx), tx.TxHash()}
+	p.txs[k] = ti
+	return ti, idx
 }
 
 func (p *pool) coins(desc []tcoin) []coinset.Coin {
+	fresh := p.calls%7 == 0
+	p.calls++
 	out := make([]coinset.Coin, len(desc))
 	for i, t := range desc {
-		out[i] = p.coin(i, t)
+		ti, idx := p.place(i, desc)
+		for len(p.objs) <= i {
+			p.objs = append(p.objs, nil)
+		}
+		c := p.objs[i]
+		if c == nil || fresh {
+			if c != nil {
+				delete(p.op, c)
+			}
+			c = &coinset.SimpleCoin{}
+			p.objs[i] = c
+		}
+		// the wallet updates the coin: another transaction / output / number of confirmations
+		c.Tx, c.TxIndex, c.TxNumConfs = ti.tx, idx, t.C
+		want := wire.OutPoint{Hash: ti.hash, Index: idx}
+		if p.op[c] != want {
+			p.op[c] = want
+		}
+		p.audit(c, i, t, want)
+		out[i] = c
 	}
 	return out
+}
+
+// audit: at every call the accessors report the exported fields as they are now
+func (p *pool) audit(c *coinset.SimpleCoin, id int, t tcoin, want wire.OutPoint) {
+	if p.bad != "" {
+		return
+	}
+	switch {
+	case int64(c.Value()) != t.V:
+		p.bad = fmt.Sprintf("coin %d: Value() = %d, the output it points to carries %d", id, int64(c.Value()), t.V)
+	case c.NumConfs() != t.C:
+		p.bad = fmt.Sprintf("coin %d: NumConfs() = %d, TxNumConfs is %d", id, c.NumConfs(), t.C)
+	case c.ValueAge() != t.C*t.V:
+		p.bad = fmt.Sprintf("coin %d: ValueAge() = %d, NumConfs()*Value() = %d*%d = %d", id, c.ValueAge(), t.C, t.V, t.C*t.V)
+	case c.Index() != want.Index || *c.Hash() != want.Hash:
+		p.bad = fmt.Sprintf("coin %d: Hash()/Index() is not the outpoint (transaction hash, TxIndex %d)", id, want.Index)
+	}
 }
 
 // ---------- running a selector ----------
@@ -451,7 +541,12 @@ func one(pl *pool, kind int, p param, desc []tcoin, small, corr bool, out *[]vio
 	if small {
 		txpl = nil
 	}
-	o := runSel(kind, p, pl.coins(desc), txpl)
+	offered := pl.coins(desc)
+	if pl.bad != "" {
+		*out = append(*out, viol{"C19:simplecoin:accessors", "SimpleCoin: " + pl.bad, replayOf(kind, p, desc, outcome{}, "ValueAge() = NumConfs() * Value() of the coin as it is now; Hash()/Index() = its outpoint")})
+		pl.bad = ""
+	}
+	o := runSel(kind, p, offered, txpl)
 	if inDomain(p, desc, small) {
 		check(kind, p, desc, o, out)
 	}
@@ -660,8 +755,10 @@ func bdDesc(r *vh.RNG, n, regime int) []tcoin {
 			desc[i] = tcoin{int64(1 + r.Intn(60)), int64(r.Intn(9))}
 		case 2: // large, odd digits everywhere: value < 2^48, confirmations < 2^9
 			desc[i] = tcoin{int64(r.U64()>>16) | 1, int64(1 + r.Intn(511))}
-		default: // large with close value-ages: a common base plus small differences
+		case 3: // large with close value-ages: a common base plus small differences
 			desc[i] = tcoin{int64(1)<<47 + int64(r.Intn(1000)), int64(256 + r.Intn(3))}
+		default: // huge: value-ages up to 2^59 (two or three coins, so still inside the overflow bounds)
+			desc[i] = tcoin{int64(r.U64()>>uint(14+r.Intn(6))) | 1, int64(1 + r.Intn(511))}
 		}
 	}
 	return desc
@@ -753,7 +850,12 @@ type hop struct {
 
 func history(pl *pool, init []tcoin, extra []tcoin, ops []hop, corr bool) {
 	all := append(append([]tcoin(nil), init...), extra...)
+	all = append([]tcoin(nil), all...) // "confs" operations update the copy
 	cs := pl.coins(all)
+	if pl.bad != "" {
+		rep.Violate("C19:simplecoin:accessors", "SimpleCoin: "+pl.bad, map[string]interface{}{"family": "history", "init_value_confs": init, "pushable_value_confs": extra, "ops": ops, "failing_step": -1})
+		pl.bad = ""
+	}
 	set := coinset.NewCoinSet(cs[:len(init)])
 	ref := make([]int, 0, len(all)) // reference: the ids in order
 	for i := range init {
@@ -875,6 +977,24 @@ func history(pl *pool, init []tcoin, extra []tcoin, ops []hop, corr bool) {
 			tx(i)
 			sums(i)
 			continue
+		case "confs":
+			// new blocks arrive (or a reorganisation takes some away) for a coin that is not in the
+			// set at the moment: its exported TxNumConfs changes; the coin may be pushed again later
+			inSet := false
+			for _, id := range ref {
+				inSet = inSet || id == o.Coin
+			}
+			if !inSet {
+				sc := cs[o.Coin].(*coinset.SimpleCoin)
+				all[o.Coin].C = all[o.Coin].C/2 + 3
+				sc.TxNumConfs = all[o.Coin].C
+				if sc.ValueAge() != all[o.Coin].C*all[o.Coin].V || sc.NumConfs() != all[o.Coin].C {
+					rep.Violate("C19:simplecoin:accessors", fmt.Sprintf("SimpleCoin: after TxNumConfs was set to %d: NumConfs() = %d, Value() = %d, ValueAge() = %d", all[o.Coin].C, sc.NumConfs(), int64(sc.Value()), sc.ValueAge()),
+						map[string]interface{}{"family": "history", "init_value_confs": init, "pushable_value_confs": extra, "ops": ops, "failing_step": i})
+				}
+				rep.Histogram["history_confs_changed_outside_set"]++
+			}
+			continue
 		case "push":
 			set.PushCoin(cs[o.Coin])
 			for _, id := range ref {
@@ -992,6 +1112,9 @@ func randHistory(r *vh.RNG, pl *pool, mode int, corr bool) {
 		}
 		if r.Intn(3) < reads {
 			ops = append(ops, hop{Op: vh.Pick(r, []string{"coins", "coins", "tx"})})
+		}
+		if r.Intn(4) == 0 {
+			ops = append(ops, hop{"confs", r.Intn(len(init) + len(extra))})
 		}
 	}
 	history(pl, init, extra, ops, corr)
@@ -1150,13 +1273,16 @@ func main() {
 		nb = 40000
 	}
 	for i := 0; i < nb; i++ {
-		regime := []int{0, 1, 2, 3, 2, 3}[i%6]
+		regime := []int{0, 1, 2, 3, 2, 3, 4}[i%7]
 		n := 2 + r.Intn(5)
 		if i%9 == 0 {
 			n = 7 + r.Intn(6)
 		}
 		if i%13 == 0 && regime != 2 {
 			n = 13 + r.Intn(20) // beyond the insertion-sort range of sort.Sort: monitors only
+		}
+		if regime == 4 {
+			n = 2 + r.Intn(2)
 		}
 		desc := bdDesc(r, n, regime)
 		p := bdParam(r, desc)
@@ -1167,7 +1293,7 @@ func main() {
 		corr := !cfg.Search && (cfg.Thorough() || i%3 != 1)
 		o := one(pl, kind, p, desc, false, corr, &vs)
 		rep.Count(selName[kind], fmt.Sprint("b", kind, p, desc), p.MaxIn >= 1)
-		fam := "boundary_" + []string{"tiny", "medium", "large", "large_close"}[regime]
+		fam := "boundary_" + []string{"tiny", "medium", "large", "large_close", "huge"}[regime]
 		rep.Histogram[fam]++
 		if o.Ok {
 			rep.Histogram[selName[kind]+"_ok"]++
@@ -1243,12 +1369,25 @@ func replay(pl *pool) {
 		for i, c := range f.Input.Coins {
 			desc[i] = tcoin{c[0], c[1]}
 		}
-		var vs []viol
+		var vs, discard []viol
 		p := param{f.Input.MaxIn, f.Input.MinCh, f.Input.MinAvg, f.Input.Tgt}
+		// an earlier use of the same coin objects with other values and confirmations, as in the runs
+		prev := make([]tcoin, len(desc)+1)
+		for i := range prev {
+			prev[i] = tcoin{int64(7 + 3*i), int64(2 + i%4)}
+		}
+		one(pl, f.Input.Kind, param{MaxIn: 2, MinAvg: 1, Tgt: 9}, prev, false, false, &discard)
+		pl.bad = ""
 		one(pl, f.Input.Kind, p, desc, false, false, &vs)
 		rep.Count(selName[f.Input.Kind], "replay", true)
 		report(vs)
 	case "history":
+		prev := make([]tcoin, len(f.Input.Init)+len(f.Input.Extra))
+		for i := range prev {
+			prev[i] = tcoin{int64(7 + 3*i), int64(2 + i%4)}
+		}
+		pl.coins(prev) // an earlier use of the same coin objects
+		pl.bad = ""
 		history(pl, f.Input.Init, f.Input.Extra, f.Input.Ops, false)
 	}
 	vh.Must(rep.Write(cfg))
